@@ -76,7 +76,7 @@ Section Writer.
   (* INSDCTableParser reads back what INSDCFormatter wrote *)
   Theorem table_roundtrip f t last post reg W :
     Forall (fok r np depth) (f :: t) -> Forall (fun g => pnormal (fprops g)) (f :: t) ->
-    names_ok reg (f :: t) -> eol_post last post -> stops np depth post ->
+    names_ok r reg (f :: t) -> eol_post last post -> stops np depth post ->
     table_show r kp depth (f :: t) = Ok W ->
     forall o e a (fr : frame) k, exists o' e' a',
       table_parser [] reg (mkst ((W ++ last) ++ post) o e a (fr :: k)) =
